@@ -16,13 +16,20 @@ EndOf(i) == Trace[i].end
 IsEv(e) == l < EndOf(t0) /\ Trace[l].ev = e /\ l' = l + 1
 
 TInit == /\ t0 \in Starts /\ l = t0
-         /\ n = 0 /\ pos = 0 /\ eof = FALSE /\ served = "running" /\ ncalls = 0 /\ nret = 0 /\ cancelled = FALSE
+         /\ n = 0 /\ cfg = "listen" /\ pos = 0 /\ eof = FALSE /\ served = "running" /\ ncalls = 0 /\ nret = 0
+         /\ loc = "clean" /\ cancelled = FALSE
 
+(* the reset line carries the scenario constants: number of items, handler configuration *)
 TrReset == /\ l = t0 /\ IsEv("reset")
-           /\ n' = Trace[l].n
-           /\ UNCHANGED <<pos, eof, served, ncalls, nret, cancelled>>
+           /\ n' = Trace[l].n /\ cfg' = Trace[l].cfg /\ cfg' \in Cfgs
+           /\ UNCHANGED <<pos, eof, served, ncalls, nret, loc, cancelled>>
 TrFeed == IsEv("feed") /\ Feed(Trace[l].i, Trace[l].cut)
-TrApp == IsEv("app") /\ AppStart(Trace[l].i)
+(* an application action: "loc" is the local state the driver OBSERVED after the action     *)
+(* ("?" where it has no means to observe it); it must be the one the run protocol derives    *)
+(* - otherwise the scenario did not reach the state the generator meant (no verdict about    *)
+(* the library: the check reports such a trace as undecided, not as a violation)             *)
+TrApp == /\ IsEv("app") /\ AppStart(Trace[l].i, Trace[l].act)
+         /\ Trace[l].loc \in {"?", loc'}
 TrEof == IsEv("eof") /\ Eof
 TrServeRet == IsEv("serve_ret") /\ ServeReturn(Trace[l].out)
 TrCancel == IsEv("cancel") /\ Cancel
